@@ -404,6 +404,15 @@ def gen_C20(rng, tier):
              "package p; @Ann(key = 1 ; interface I {}", "package p; @Ann(key = 1", "package p; interface I { @A(k=true x) void f(); }",
              "PACKAGE a.b;", "package p; oneway INTERFACE I {}", "package p; interface I { void f() = INTEGER; }",
              "package p; @Ann(k = BOOLEAN) interface I {}"]
+    # long offending tokens with multi-byte text (string literals, floats in Unicode digits), recovered and not recovered
+    for ch in ["\u00e9", "\u6f22", "\U0001F600", "x"]:
+        for ln in (20, 70, 79, 90, 140):
+            lit = '"' + ch * ln + '"'
+            fixed += [f"package p; interface I {{ void f() {lit}; void g(); }}", f"package p; parcelable P {{ int x {lit} y; }}",
+                      f"package p; {lit} interface I {{}}", f"package p; enum E {{ A {lit}, B }}"]
+    for ln in (30, 85):
+        num = "\u0663" * ln + ".\u0665"
+        fixed += [f"package p; interface I {{ void f() {num}; }}", f"package p; interface I {{ const int K = 1 {num}; }}"]
     for t in fixed:
         cases.append(nm(f"fixed{k}", [("f", t)]))
         k += 1
